@@ -6,6 +6,13 @@
 // after it; the driver logs Get begin/end with the classified result and every loader invocation. Client death =
 // its connections are cut, new dials are refused and it is stopped without its final DEL. The ndjson trace is judged
 // by AsideTrace.tla.
+//
+// Round 2: Gets without a loader (step field nil), unconditional DELs of cache keys that no `del` step asked for are
+// logged as LibDel, the first command of a client on a new connection as Conn, gates (`gate` steps: the replies to one
+// client are held from a command of a given kind until another command has arrived at the server; this forces the
+// interleavings "two callers register an id at once" and "two waiters see the dead holder's marker gone before either
+// releases the lock" without sleeping), and a slow server clock (scenario field slow: liveness keys live slow * ClientTTL
+// of wall-clock time, so that a missing refresh is told from a late one).
 package main
 
 import (
@@ -55,6 +62,23 @@ type step struct {
 	Load int    `json:"load"` // get: loader duration in ms
 	Fail bool   `json:"fail"` // get: loader fails
 	Ms   int    `json:"ms"`
+	Nil  bool   `json:"nil"`  // get: fn == nil
+	Hold bool   `json:"hold"` // get: the next step waits until this Get's loader runs (at most 1.5 s)
+	// gate: from the first command of kind What of client C (idset: SET of a liveness key; phgone: GET of a liveness key
+	// that does not exist) the replies to C are held until N commands of kind Until (idset lock) of client UC have
+	// arrived since, at most Ms milliseconds
+	What  string `json:"what"`
+	UC    int    `json:"uc"`
+	Until string `json:"until"`
+	N     int    `json:"n"`
+}
+
+type gate struct {
+	st      step
+	holding bool
+	done    bool
+	count   int
+	conn    *fakeredis.Conn
 }
 
 type scenario struct {
@@ -64,7 +88,19 @@ type scenario struct {
 	Typed   bool   `json:"typed"`
 	Steps   []step `json:"steps"`
 	Class   string `json:"class"`
+	Slow    int    `json:"slow"` // > 1: the server clock runs that many times slower than the wall clock
+	// one connection per client (PipelineMultiplex -1): onInvalidation(nil), which resets c.id, then happens exactly once
+	// per Conn record; only such scenarios log Conn records and are held to the rules about registered ids
+	Single bool `json:"single"`
 }
+
+// slowClock is the wall clock slowed down by a constant factor.
+type slowClock struct {
+	t0  time.Time
+	div int
+}
+
+func (c slowClock) Now() time.Time { return c.t0.Add(time.Since(c.t0) / time.Duration(c.div)) }
 
 type pending struct {
 	kind   string // lock setkey delkey del idset
@@ -100,6 +136,44 @@ type world struct {
 	dead    map[int]bool
 	wg      sync.WaitGroup
 	gets    int
+	connOf  map[int]int    // client -> id of the connection it used last
+	userDel map[string]int // "client/key" -> user Del calls in progress
+	gates   []*gate
+}
+
+// gateCheck is called from the intercept (dispatcher mutex and w.mu held) for a command of the given kind of client cl.
+func (w *world) gateCheck(c *fakeredis.Conn, cl int, kind string) {
+	for _, g := range w.gates {
+		if g.done {
+			continue
+		}
+		if !g.holding && cl == g.st.C && kind == g.st.What {
+			g.holding = true
+			g.conn = c
+			c.HoldReplies(true)
+			ms := g.st.Ms
+			if ms <= 0 {
+				ms = 500
+			}
+			go func(g *gate) {
+				time.Sleep(time.Duration(ms) * time.Millisecond)
+				w.mu.Lock()
+				was := g.done
+				g.done = true
+				w.mu.Unlock()
+				if !was {
+					g.conn.HoldReplies(false)
+				}
+			}(g)
+		}
+		if g.holding && cl == g.st.UC && kind == g.st.Until {
+			g.count++
+			if g.count >= g.st.N {
+				g.done = true
+				g.conn.HoldReplies(false)
+			}
+		}
+	}
 }
 
 func keyName(k int) string { return "ck" + strconv.Itoa(k) }
@@ -169,8 +243,26 @@ func (w *world) intercept(c *fakeredis.Conn, argv []string) (fakeredis.Value, fa
 		return fakeredis.Value{}, fakeredis.CutNow
 	}
 	cmd := strings.ToUpper(argv[0])
+	if cl != 0 && w.sc.Single {
+		w.mu.Lock()
+		if w.connOf[cl] != c.ID() {
+			w.connOf[cl] = c.ID()
+			w.flush()
+			w.log("Conn", cl, 0, 0, "", 0, "", 0, "", c.ID())
+		}
+		w.mu.Unlock()
+	}
 	var p *pending
 	switch cmd {
+	case "GET":
+		if len(argv) == 2 && strings.HasPrefix(argv[1], phPrefix) {
+			w.srv.ExpireNow()
+			if _, _, ok := w.srv.PeekRaw(argv[1]); !ok {
+				w.mu.Lock()
+				w.gateCheck(c, cl, "phgone")
+				w.mu.Unlock()
+			}
+		}
 	case "SET":
 		if len(argv) >= 3 {
 			if strings.HasPrefix(argv[1], phPrefix) {
@@ -182,6 +274,11 @@ func (w *world) intercept(c *fakeredis.Conn, argv []string) (fakeredis.Value, fa
 	case "DEL":
 		if len(argv) == 2 && (keyIdx(argv[1]) >= 0 || strings.HasPrefix(argv[1], phPrefix)) {
 			p = &pending{kind: "del", key: argv[1]}
+			w.mu.Lock()
+			if keyIdx(argv[1]) >= 0 && w.userDel[strconv.Itoa(cl)+"/"+argv[1]] == 0 {
+				p.kind = "libdel" // nobody called Del: the library's own unconditional DEL
+			}
+			w.mu.Unlock()
 		}
 	case "EVAL", "EVALSHA":
 		if len(argv) >= 5 && argv[2] == "1" && keyIdx(argv[3]) >= 0 {
@@ -208,6 +305,7 @@ func (w *world) intercept(c *fakeredis.Conn, argv []string) (fakeredis.Value, fa
 	p.preV, _, p.preOK = w.srv.PeekRaw(p.key)
 	w.mu.Lock()
 	w.pre[c.ID()] = p
+	w.gateCheck(c, cl, p.kind)
 	w.mu.Unlock()
 	return fakeredis.Value{}, fakeredis.Pass
 }
@@ -246,6 +344,10 @@ func (w *world) flush() {
 		fk, fn := w.classify(p.preV, p.preOK)
 		tk, tn := w.classify(p.postV, p.postOK)
 		w.log("Del", p.c, p.k, 0, fk, fn, tk, tn, "", 0)
+	case "libdel":
+		fk, fn := w.classify(p.preV, p.preOK)
+		tk, tn := w.classify(p.postV, p.postOK)
+		w.log("LibDel", p.c, p.k, 0, fk, fn, tk, tn, "", 0)
 	default:
 		fk, fn := w.classify(p.preV, p.preOK)
 		tk, tn := w.classify(p.postV, p.postOK)
@@ -315,12 +417,17 @@ func (w *world) newClient(c int) error {
 	n := fakeredis.NewNetwork()
 	n.Add(addr, w.srv)
 	w.nets[c] = n
+	mpx := 0 // the default: 4 connections
+	if w.sc.Single {
+		mpx = -1
+	}
 	cl, err := rueidisaside.NewClient(rueidisaside.ClientOption{
 		ClientOption: rueidis.ClientOption{
 			InitAddress:       []string{addr},
 			DialCtxFn:         n.DialCtxFn(),
 			ForceSingleClient: true,
 			ClientName:        "A" + strconv.Itoa(c),
+			PipelineMultiplex: mpx,
 		},
 		ClientTTL:  clientTTL,
 		UseLuaLock: w.sc.Lua,
@@ -337,16 +444,23 @@ func (w *world) newClient(c int) error {
 	return nil
 }
 
-func (w *world) get(st step) {
+func (w *world) get(st step, started chan struct{}) {
 	defer w.wg.Done()
 	c, k := st.C, st.K
 	ttl := time.Duration(st.TTL) * time.Millisecond
 	w.mu.Lock()
 	w.gets++
 	g := w.gets
-	w.log("GetBegin", c, k, 0, "", 0, "", 0, "", g)
+	isnil := 0
+	if st.Nil {
+		isnil = 1
+	}
+	w.log("GetBegin", c, k, isnil, "", 0, "", 0, "", g)
 	w.mu.Unlock()
 	loader := func(ctx context.Context, key string) (string, error) {
+		if started != nil {
+			close(started)
+		}
 		w.mu.Lock()
 		w.nload++
 		n := w.nload
@@ -369,7 +483,9 @@ func (w *world) get(st step) {
 	}
 	var val string
 	var err error
-	if t := w.typed[c]; t != nil {
+	if st.Nil {
+		val, err = w.clients[c].Get(context.Background(), ttl, keyName(k), nil)
+	} else if t := w.typed[c]; t != nil {
 		var p *string
 		p, err = t.Get(context.Background(), ttl, keyName(k), func(ctx context.Context, key string) (*string, error) {
 			s, e := loader(ctx, key)
@@ -423,15 +539,40 @@ func (w *world) kill(c int) {
 
 func runScenario(sc *scenario, rep *vh.Report, rng *rand.Rand) []map[string]any {
 	w := &world{sc: sc, tr: &vh.Tracer{}, rep: rep, ids: map[string]int{}, idOwner: map[int]int{}, vals: map[string]int{},
-		pre: map[int]*pending{}, dead: map[int]bool{}}
-	w.srv = fakeredis.NewServer("s", fakeredis.Options{})
+		pre: map[int]*pending{}, dead: map[int]bool{}, connOf: map[int]int{}, userDel: map[string]int{}}
 	w.t0 = time.Now()
+	stopTick := make(chan struct{})
+	defer close(stopTick)
+	if sc.Slow > 1 {
+		w.srv = fakeredis.NewServer("s", fakeredis.Options{Clock: slowClock{t0: w.t0, div: sc.Slow}})
+		go func() { // a server on a foreign clock has no expiry ticker of its own
+			for {
+				select {
+				case <-stopTick:
+					return
+				case <-time.After(10 * time.Millisecond):
+					w.srv.ExpireNow()
+				}
+			}
+		}()
+	} else {
+		w.srv = fakeredis.NewServer("s", fakeredis.Options{})
+	}
+	for _, st := range sc.Steps {
+		if st.Op == "gate" {
+			w.gates = append(w.gates, &gate{st: st})
+		}
+	}
 	w.nets = make([]*fakeredis.Network, sc.Clients+1)
 	w.clients = make([]rueidisaside.CacheAsideClient, sc.Clients+1)
 	w.typed = make([]rueidisaside.TypedCacheAsideClient[string], sc.Clients+1)
 	w.srv.SetIntercept(w.intercept)
 	w.srv.SetEventSink(w.sink)
-	w.tr.Log("RESET", "c", sc.Clients, "k", 0, "id", 0, "fk", "", "fn", 0, "tk", "", "tn", 0, "res", sc.ID, "n", 0, "t", 0)
+	mono := 0
+	if sc.Single {
+		mono = 1
+	}
+	w.tr.Log("RESET", "c", sc.Clients, "k", 0, "id", mono, "fk", "", "fn", 0, "tk", "", "tn", 0, "res", sc.ID, "n", sc.Slow, "t", 0)
 	for c := 1; c <= sc.Clients; c++ {
 		if err := w.newClient(c); err != nil {
 			rep.Inconcl("NewClient: %v", err)
@@ -448,16 +589,33 @@ func runScenario(sc *scenario, rep *vh.Report, rng *rand.Rand) []map[string]any 
 				continue
 			}
 			w.wg.Add(1)
-			go w.get(st)
+			var started chan struct{}
+			if st.Hold {
+				started = make(chan struct{})
+			}
+			go w.get(st, started)
 			time.Sleep(time.Duration(15+rng.Intn(25)) * time.Millisecond)
+			if st.Hold {
+				select {
+				case <-started:
+				case <-time.After(1500 * time.Millisecond):
+				}
+			}
 		case "del":
 			w.mu.Lock()
 			d := w.dead[st.C]
 			w.mu.Unlock()
 			if !d {
+				uk := strconv.Itoa(st.C) + "/" + keyName(st.K)
+				w.mu.Lock()
+				w.userDel[uk]++
+				w.mu.Unlock()
 				ctx, cancel := context.WithTimeout(context.Background(), time.Second)
 				_ = w.clients[st.C].Del(ctx, keyName(st.K))
 				cancel()
+				w.mu.Lock()
+				w.userDel[uk]--
+				w.mu.Unlock()
 			}
 			time.Sleep(time.Duration(10+rng.Intn(20)) * time.Millisecond)
 		case "die":
@@ -517,6 +675,7 @@ func runScenario(sc *scenario, rep *vh.Report, rng *rand.Rand) []map[string]any 
 
 func randomScenario(i int, rng *rand.Rand) *scenario {
 	sc := &scenario{ID: fmt.Sprintf("rnd%d", i), Clients: 2 + rng.Intn(2), Lua: rng.Intn(2) == 0, Typed: rng.Intn(3) == 0, Class: "random"}
+	sc.Single = i%2 == 1
 	n := 4 + rng.Intn(7)
 	died := 0
 	for j := 0; j < n; j++ {
@@ -525,7 +684,7 @@ func randomScenario(i int, rng *rand.Rand) *scenario {
 		switch r := rng.Intn(20); {
 		case r < 11:
 			ttls := []int{150, 400, 1500, 2500}
-			sc.Steps = append(sc.Steps, step{Op: "get", C: c, K: k, TTL: ttls[rng.Intn(len(ttls))], Load: []int{0, 30, 120, 500}[rng.Intn(4)], Fail: rng.Intn(5) == 0})
+			sc.Steps = append(sc.Steps, step{Op: "get", C: c, K: k, TTL: ttls[rng.Intn(len(ttls))], Load: []int{0, 30, 120, 500}[rng.Intn(4)], Fail: rng.Intn(5) == 0, Nil: rng.Intn(5) == 0})
 		case r < 13:
 			sc.Steps = append(sc.Steps, step{Op: "del", C: c, K: k})
 		case r < 14:
